@@ -210,6 +210,9 @@ def run_client(ctx, case, sc=None, qr_fail=None, qr_mode="uf", client=None, extr
         mp["turnout_factor_upper"] = case["tf_hi"]
     kw = dict(pi_method=case.get("pi", "nonparametric"), save_output=case.get("save_output", []), aggregates=aggregates,
               model_parameters=mp, handle_unreporting=case.get("handle_unreporting", "drop"))
+    if case.get("omit_model_parameters"):
+        # the caller leaves model_parameters out (the client's own default is used; <= 20 units: the outlier models do not run)
+        del kw["model_parameters"]
     for k in ("features", "fixed_effects", "lhs_called_contests", "rhs_called_contests", "stop_model_call"):
         if k in case:
             kw[k] = case[k]
